@@ -26,6 +26,10 @@ JUSTIFIED = [
     ("data/coordinates.py", "get_rotatable_dihedrals", "set((tuple(v11) for v11 in v8))",
      "tuples of ints (atom indices)"),
     ("data/coordinates.py", "remove_repeat_angles", "set([v1[1] for v1 in angles])", "ints (atom indices)"),
+    ("global_optimisation/perturbations.py", "perturb", "random.sample(…)",
+     "Python's random module, seeded by the caller; basin-hopping steps never run inside a pool worker"),
+    ("global_optimisation/perturbations.py", "perturb", "random.random(…)",
+     "Python's random module, seeded by the caller; basin-hopping steps never run inside a pool worker"),
     ("similarity/molecular_similarity.py", "get_permutable_groups", "set(coords1.atom_labels)",
      "strings: order irrelevant by C11_group_order_irrelevant"),
     ("similarity/molecular_similarity.py", "get_permutable_groups",
@@ -61,6 +65,14 @@ def scan() -> list[tuple[str, str, str]]:
         tree = ast.parse(path.read_text())
         funcs = []
         renames = []
+        stdlib_random = None
+        for n in ast.walk(tree):
+            if isinstance(n, ast.Import):
+                for a in n.names:
+                    if a.name == "random":
+                        stdlib_random = a.asname or "random"
+            elif isinstance(n, ast.ImportFrom) and n.module == "random":
+                sites.append((rel, "<module>", "from random import " + ", ".join(a.name for a in n.names)))
 
         class V(ast.NodeVisitor):
             def visit_FunctionDef(self, node):
@@ -87,6 +99,12 @@ def scan() -> list[tuple[str, str, str]]:
                         (src.split(".")[-1] == "RandomState" and not node.args and not node.keywords) or \
                         (src.split(".")[-1] == "seed" and not node.args and not node.keywords):
                     self._site(node)
+                # Python's own `random` module is re-seeded from OS entropy in every forked child
+                # (os.register_at_fork), unlike numpy's global generator, which a worker inherits: a draw from it is
+                # reproducible only in code that never runs inside a pool worker
+                if stdlib_random and isinstance(node.func, ast.Attribute) and isinstance(node.func.value, ast.Name) \
+                        and node.func.value.id == stdlib_random and node.func.attr != "seed":
+                    sites.append((rel, funcs[-1] if funcs else "<module>", f"{stdlib_random}.{node.func.attr}(…)"))
                 self.generic_visit(node)
 
             def visit_Set(self, node):
